@@ -44,7 +44,23 @@ def schemas(tier):
     return ("utest", "fix44") if tier == "thorough" else ("utest",)
 
 
+def pre(schema, default):
+    return "" if schema == default else "@%s " % schema
+
+
 _state = {}
+
+
+def wf_probe(built):
+    """wf_ctx (the schema hypothesis of the theorems) evaluated by the extracted code on each dumped schema."""
+    import subprocess
+    drv = [B.ocaml_driver(ID)] + built["driver_args"]
+    default = next(iter(built["exes"]))
+    out = {}
+    for s in built["exes"]:
+        p = subprocess.run(drv, input=(pre(s, default) + "WF\t\n").encode(), stdout=subprocess.PIPE, stderr=subprocess.PIPE, timeout=300)
+        out[s] = p.stdout.decode().split("\t")[0] == "WF 1"
+    return out
 
 
 def build(tier):
@@ -52,7 +68,19 @@ def build(tier):
     plain = G.build_codec(schemas(tier), variant="plain")
     built["plain_exes"] = plain["exes"]
     _state["built"] = built
+    wf = wf_probe(built)
+    _state["wf"] = wf
+    default = next(iter(built["exes"]))
+    if not wf[default]:
+        raise B.BuildError("the metadata of schema %s does not satisfy wf_ctx: the theorems of C04 do not apply to it" % default)
     return built
+
+
+def extra_evidence(ctx):
+    return {"wf_ctx": _state.get("wf", {}),
+            "wf_ctx_note": "FIX44 fails wf_ctx only through field 604 (NoLegSecurityAltID): its trait is a group count of int type, "
+                           "the generated class is a STRING field, so has_group_count reads a std::string as an int (UB; the shared "
+                           "codec model answers true, READY.md); the generator avoids that count field"}
 
 
 # ------------------------------------------------------------------------------ tokens
@@ -439,10 +467,6 @@ def pick_mut(rng):
         if r < w:
             return f
         r -= w
-
-
-def pre(schema, default):
-    return "" if schema == default else "@%s " % schema
 
 
 def tag_buffer_defined(meta, raw):
